@@ -154,6 +154,29 @@ fn s5() {
     }
 }
 
+/// S6: back-references, captures and case-blind comparison on one shared object from
+/// three threads with different haystacks (per-search scratch must stay per search).
+fn s6() {
+    let re = Arc::new(Regex::xpath(r"^(ab+)c*\1$|(x)y\2", "i").unwrap());
+    let inputs = ["abbcABB", "abbcab", "zXyx-abab"];
+    let exp: Vec<Vec<String>> = inputs.iter().map(|i| render_all(&re, i, "<$1$2>")).collect();
+    let mut hs = Vec::new();
+    for t in 0..3usize {
+        let re = re.clone();
+        let exp = exp.clone();
+        hs.push(thread::spawn(move || {
+            for k in 0..2usize {
+                let i = (t + k) % 3;
+                let got = render_all(&re, inputs[i], "<$1$2>");
+                check(&format!("S6 thread {} input {:?}", t, inputs[i]), &got, &exp[i]);
+            }
+        }));
+    }
+    for h in hs {
+        h.join().unwrap();
+    }
+}
+
 fn main() {
     let which = std::env::args().nth(1).unwrap_or_else(|| "S1".to_string());
     match which.as_str() {
@@ -162,6 +185,7 @@ fn main() {
         "S3" => s3(),
         "S4" => s4(),
         "S5" => s5(),
+        "S6" => s6(),
         // self-test of the stage's failure reporting
         "FAIL" => check("FAIL selftest", &["a".to_string()], &["b".to_string()]),
         other => {
